@@ -47,7 +47,7 @@ func valJSON(v *variants.Variant) Ev {
 	case variants.Double:
 		frac(v.AsDouble())
 	case variants.String:
-		e["s"] = v.AsString()
+		e["s"] = string([]byte(v.AsString())) // copied now: the text may share storage that later calls overwrite
 		e["k"] = "str"
 	case variants.Boolean:
 		e["s"] = fmt.Sprint(v.AsBoolean())
@@ -459,6 +459,8 @@ func execC06(seg []Ev) []Ev {
 			}
 			o2, r2, _ := call()
 			e["o2"], e["r2"] = o2, valJSON(r2)
+			// the operands after the two calls (an operator reads its operands, it does not write them)
+			e["aa"], e["ba"] = valJSON(a), valJSON(b)
 		case "powdouble":
 			// '^' on integers is the same exponentiation as on the equal doubles
 			toD := func(v *variants.Variant) *variants.Variant {
